@@ -43,6 +43,8 @@ def mk_graph_project(rng, depth=None):
             a = {"count": rng.pick([0, 1, 2, 5, 21])}
         elif r == 4 and kind in ("range", "plural"):
             a = {"count": rng.pick(["{{ n }}", " {{ total }} "])}
+        elif r == 5 and rng.chance(1, 2):
+            a = {"x": "$t(" + ((ns + ":") if ns else "") + "side)", "y": "[$t(" + ((ns + ":") if ns else "") + "side)]"}     # nested references as arguments
         else:
             a = {"x": "<b>{{ z }}</b>", "w": 1}
         chain_args.append(a)
@@ -72,6 +74,7 @@ def mk_graph_project(rng, depth=None):
             meta.setdefault("t0_presence", {})[l] = pres
         if kind == "chain":
             pairs.append(("base", f"[{l}] base x={{{{ x }}}} y={{{{ y }}}}"))
+        pairs.append(("side", f"SIDE-{l}"))
         prev = "t0"
         for d, a in enumerate(chain_args):
             path = ((ns + ":") if ns else "") + prev
@@ -114,7 +117,11 @@ def subst_env(base, args, parse_arg):
     vals = {}
     for k, a in args.items():
         name = "var_" + k.strip()
-        if isinstance(a, str):
+        if isinstance(a, str) and "$t(" in a:
+            # a nested reference to the key `side` (a plain string `SIDE-<locale>`): substitute its text
+            import re
+            vals[name] = ("text", re.sub(r"\$t\([^)]*side\)", base.side_text, a))
+        elif isinstance(a, str):
             tree = parse_arg(a)
             vals[name] = ("tree", tree)
         elif isinstance(a, bool):
@@ -147,7 +154,9 @@ def subst_env(base, args, parse_arg):
             if len(names) == 1:
                 return base.count(names[0])
         return base.count(k)
-    return Env(var=var, comp=base.comp, count=count, cat=base.cat)
+    e = Env(var=var, comp=base.comp, count=count, cat=base.cat)
+    e.side_text = base.side_text
+    return e
 
 
 def fallback_witnesses():
@@ -160,6 +169,25 @@ def fallback_witnesses():
         out.append({"default": "en", "locales": ["en", "fr", "fr-CA"], "all_locales": ["en", "fr", "fr-CA"], "namespaces": None,
                     "inherits": {"fr-CA": "fr"}, "files": files, "extra_cfg": False, "meta": {}, "witness": pres})
     return out
+
+
+def subkey_target_projects():
+    out = []
+    for ref in ("$t(g)", "$t(g, {\"x\": \"1\"})", "pre $t( g ) post", "$t(g.inner)"):
+        for chain in (False, True):
+            pairs = [("g", proj.O([("leaf", "L"), ("inner", proj.O([("deep", "D")]))])), ("r", ref)]
+            if chain:
+                pairs.append(("r2", "$t(r)"))
+            out.append({"default": "en", "locales": ["en"], "all_locales": ["en"], "namespaces": None, "inherits": {},
+                        "files": {(None, "en"): proj.O(pairs)}, "extra_cfg": False, "meta": {}, "subkey_target": ref})
+    return out
+
+
+def subkey_oracle(ctx, p, o, i):
+    ctx.seen(project_text(p), nontrivial=True)
+    if "ok" in o["ci"]:
+        report_violation(ctx, "foreign:reference-to-subkey-group-accepted", {"case": project_text(p), "reference": p["subkey_target"],
+                                                                            "expected_by_spec": "rejected with an error naming the key"})
 
 
 def witness_oracle(ctx, p, o, i):
@@ -228,8 +256,11 @@ def make_oracle(binp):
             def cat(rule, c, l=l):
                 key = ("u:%d" % c) if c.denominator == 1 and c >= 0 else "f:" + str(float(c))
                 return cats.get((l, rule, key), "other")
-            base = Env(count=lambda k: __import__("fractions").Fraction(3), cat=cat,
-                       var=lambda k, f: "3" if k == "var_count" else "⟦" + k + "⟧")
+            from fractions import Fraction
+            CNT = {"var_count": 3, "var_n": 5, "var_total": 1}      # distinct per count variable: a renamed count must stay renamed
+            base = Env(count=lambda k: Fraction(CNT.get(k, 2)), cat=cat,
+                       var=lambda k, f: str(CNT[k]) if k in CNT else "⟦" + k + "⟧")
+            base.side_text = f"SIDE-{l}"
             # expected text of r_d: wrap of the text of r_(d-1) under the substituted environment; computed outside-in
             for d in range(1, g["depth"] + 1):
                 rv = locale_value_at(ns_out, l, (f"r{d}",))
@@ -273,6 +304,7 @@ def run(ctx):
     try:
         generic_pipeline_check(ctx, [("I18nVerif.Theorems.C06", "C06_")], projects, make_oracle(binp), "C06")
         generic_pipeline_check(ctx, [], fallback_witnesses(), witness_oracle, "C06-fallback-witnesses")
+        generic_pipeline_check(ctx, [], subkey_target_projects(), subkey_oracle, "C06-subkey-targets")
         more = [proj.gen_project(rng, {"fk": True}) for _ in range(ctx.budget(300, 6000))]
         generic_pipeline_check(ctx, [], more, lambda c, p, o, i: None, "C06-generated")
     finally:
